@@ -58,7 +58,8 @@ func (r *Rule) inflected(s string) string {
 			var buf strings.Builder
 
 			buf.WriteString(res[1])
-			buf.WriteString(s[0:1])
+			// keep the case of the first letter of the matched word
+			buf.WriteString(res[2][0:1])
 			buf.WriteString(replacement[1:])
 
 			return buf.String()
@@ -100,7 +101,7 @@ func (r *Rule) Init() error {
 		r.irregularMap[item.Word] = item.Replacement
 	}
 
-	reString = fmt.Sprintf(`(?i)(.*)\b((?:%s))$`, strings.Join(vIrregulars, `|`))
+	reString = fmt.Sprintf(`(?is)(.*)\b((?:%s))$`, strings.Join(vIrregulars, `|`))
 	r.compiledIrregular = regexp.MustCompile(reString)
 
 	r.compiledRules = make([]*CompiledRule, len(r.Rules))
